@@ -260,6 +260,13 @@ theorem walltime_far_future_partial (sec nsec d : Int) (hs : 0 ≤ sec)
     (hb : ¬ I64 (sec * 1000000000) ∨ ¬ I64 (sec * 1000000000 + nsec)) :
     walltimeTs sec nsec d = FOREVER := TimeP.walltime_far_future sec nsec d hs hb
 
+/-- **F36 (known finding)**: the full statement fails for such a timespec - `dispatch_walltime({10000000000, 0}, INT64_MIN)` is
+    FOREVER although the exact sum, 776627963145224192 ns after the epoch, is a representable (and elapsed) wall time -/
+theorem F36_far_future_not_exact :
+    walltimeTs 10000000000 0 (-9223372036854775808) = FOREVER ∧
+    (10000000000 : Int) * 1000000000 + 0 + (-9223372036854775808) = 776627963145224192 ∧ (776627963145224192 : Int) < MAXV := by
+  decide
+
 /-- dispatch_walltime(NULL, delta) -/
 theorem walltime_now_shift (nw : Nat) (d : Int) (hn : nw < B63) (hd : I64 d) :
     walltimeNow nw d =
